@@ -43,7 +43,7 @@ CHECKS = {
  "C08": ("exploration", "vcheck",
    "model-based property testing of server schedules (proptest, shrinking; thorough: libFuzzer target srv_sim decoding the same raw scenario values): deterministic simulation of Server::run (scripted listener / sockets / service, hand-rolled executor, one Poll = run to quiescence) with generated connection scripts and global event orders; exhaustive enumeration of all interleavings of chunk deliveries for 2 connections x 4 chunks and 3 connections x 2 chunks; oracle = per-connection sequential reference model + service-log monitor",
    "1..4 scripted clients with 0..5 calls each (plain / oneway / error-producing, pipelined or split at arbitrary bytes) are delivered in a generated global order; at every quiescent point each client's received frames must equal (at frame boundaries) or be a prefix of (mid-frame) the sequential model of its own calls, carry only its own tag, and the service log per connection must equal its calls exactly once in order; the server future must stay pending.",
-   "Trusted: the simulated transports (a read returns Pending only when nothing was delivered), the scripted service as the definition of 'as decided by the service'. zlink serves a complete frame that is followed by a partial one only when the partial one completes; the statement does not speak about latency, so only a prefix is demanded at such points.",
+   "Trusted: the simulated transports (a read returns Pending only when nothing was delivered), the scripted service as the definition of 'as decided by the service'. The simulation polls with a no-op waker; that a real runtime would wake the server is checked separately (wake discipline: at every quiescent point accept, every live connection's read or one of its parked streams must have been polled to Pending with nothing to deliver). zlink serves a complete frame that is followed by a partial one only when the partial one completes; the statement does not speak about latency, so only a prefix is demanded at such points.",
    "§3 C08"),
  "C09": ("fault_enumeration", "vcheck",
    "fault injection into the deterministic server simulation: property-based generation of scenarios with faulty connections + exhaustive placement of every fault kind at every script position / every k for EOF, read error and write failure; relational oracle (same scenario re-run with the faulty connections absent, healthy outputs byte-identical at every observation) + reference model + liveness probe connection",
@@ -107,8 +107,8 @@ CHECKS = {
    "§3 C19"),
  "C20": ("exploration", "vcheck",
    "model-based property testing of operation lists (proptest, shrinking) over {set, set the value that is already current, set through a clone, subscribe, poll subscriber i, clone, drop original} + exhaustive enumeration of every list up to length 7 over {set, set-same, subscribe, poll 0, poll 1} (thorough: libFuzzer target notified, one byte per operation), executed against both zlink_tokio::notified and zlink_smol::notified with hand polling; oracle = subscriber model (increasing subsequence of the values set after subscribing, up to date at every Pending, no end while a state exists, end after all states dropped) + one-shot cases",
-   "Every generated and enumerated interleaving of writers and (lagging) readers is run on both runtimes: each subscriber must see a subsequence of the values set after it subscribed, marked continues = true, be up to date whenever a poll returns Pending (last value = last value set, and something received since the last time it was up to date if anything was set), never see the end while a state or clone exists and see it (with the latest value delivered) once all are dropped; set must never fail or panic; one-shot notification yields exactly one item marked continues = false, then the end (just the end if the notifier was dropped).",
-   "Trusted: hand polling with a no-op waker - a Pending is read as 'queue empty' (true for both channel implementations); real wake-ups and multi-threaded use are outside this check.",
+   "Every generated and enumerated interleaving of writers and (lagging) readers is run on both runtimes: each subscriber must see a subsequence of the values set after it subscribed, marked continues = true, be up to date whenever a poll returns Pending (last value = last value set, and something received since the last time it was up to date if anything was set), have been woken (its own counting waker) by the next set or by the end of the state if its last poll returned Pending, never see the end while a state or clone exists and see it (with the latest value delivered) once all are dropped; set must never fail or panic; one-shot notification yields exactly one item marked continues = false, then the end (just the end if the notifier was dropped).",
+   "Trusted: hand polling - a Pending is read as 'queue empty' (true for both channel implementations); every subscriber is polled with its own counting waker, so that a parked subscriber that is not woken by a set / by the end of the state is reported, but multi-threaded use is outside this check.",
    "§3 C20"),
 }
 
